@@ -40,8 +40,9 @@ def gen_case(rng):
     norms_in = [rng.choice([None, None, 'linear(0.5, 1)', 'minmax']) for _ in range(nin)]
     norms_out = [rng.choice([None, None, 'linear(2, -1)']) for _ in range(nout)]
     nsteps = rng.randint(2, 8 if nin <= 2 else 5)
-    return dict(nin=nin, alpha_lim=alpha_lim, beta_lim=beta_lim, kpl=kpl, nout=nout, domains=domains,
-                norms_in=norms_in, norms_out=norms_out, nsteps=nsteps, fseed=rng.randrange(10 ** 9))
+    surr_lim = tuple(rng.choice([1, 2]) for _ in range(rng.choice([0, 0, 0, 1])))
+    return dict(nin=nin, alpha_lim=alpha_lim, beta_lim=beta_lim, kpl=kpl, nout=nout, domains=domains, surr_lim=surr_lim,
+                norms_in=norms_in, norms_out=norms_out, nsteps=nsteps + 2 * len(surr_lim), fseed=rng.randrange(10 ** 9))
 
 
 def draw_poly(rng, betas, kpl, nin, nterms):
@@ -81,7 +82,7 @@ def run_case(ctx, res, case, lines, post):
         return {o: cc.scalar(ov.denormalize(np.atleast_1d(np.float64(poly_eval(holder['polys'][o], z)))))
                 for o, ov in zip(out_names, holder['out_vars'])}
 
-    comp, rec = cc.build_component(f, nin, out_names, case['alpha_lim'], case['beta_lim'], (),
+    comp, rec = cc.build_component(f, nin, out_names, case['alpha_lim'], case['beta_lim'], tuple(case.get('surr_lim') or ()),
                                    case['domains'], case['norms_in'], case['norms_out'], case['kpl'],
                                    vectorized=rng.random() < 0.5)
     holder['names'] = [v.name for v in comp.inputs]
@@ -96,7 +97,7 @@ def run_case(ctx, res, case, lines, post):
     active_betas = sorted({tuple(b[:nin]) for _, b in comp.active_set})
     holder['polys'] = {o: draw_poly(rng, active_betas, case['kpl'], nin, rng.randint(2, 5)) for o in out_names}
     # retrain from scratch with the real polynomial along the same history
-    comp, rec = cc.build_component(f, nin, out_names, case['alpha_lim'], case['beta_lim'], (),
+    comp, rec = cc.build_component(f, nin, out_names, case['alpha_lim'], case['beta_lim'], tuple(case.get('surr_lim') or ()),
                                    case['domains'], case['norms_in'], case['norms_out'], case['kpl'],
                                    vectorized=rng.random() < 0.5)
     holder['in_vars'] = list(comp.inputs)
@@ -195,10 +196,10 @@ def run(ctx: core.Ctx, only=None) -> core.Result:
                 'nodes, around the snapping tolerance, outside the domain; train and test mode. non-trivial = >= 3 active '
                 'indices.')
     lines, post = [], []
-    keys = ('nin', 'alpha_lim', 'beta_lim', 'kpl', 'nout', 'domains', 'norms_in', 'norms_out', 'nsteps', 'fseed')
+    keys = ('nin', 'alpha_lim', 'beta_lim', 'kpl', 'nout', 'domains', 'norms_in', 'norms_out', 'nsteps', 'fseed', 'surr_lim')
     cases = [o.get('input', o) for o in only] if only is not None else core.corpus_cases(ctx.prop) + [gen_case(ctx.rng) for _ in range(ctx.scale(20, 250))]
     for case in cases:
-        case = {k: (tuple(case[k]) if k in ('alpha_lim', 'beta_lim') else case[k]) for k in keys}
+        case = {k: (tuple(case[k]) if k in ('alpha_lim', 'beta_lim') else case.get(k)) for k in keys}
         with core.guarded(res, 'scenario-raised', case):
             run_case(ctx, res, case, lines, post)
     t = core.try_driver(['itp.snaptol 1'], res, 'Gen.snapTol')
